@@ -1023,3 +1023,6 @@ def oracle_c07(line, case, stats, allc=None, lines=None):
     return errs[:3]
 def classify_c07(line, case, msg):
     return 'ImplicitlyClosedElementEdit' if '[implicitly-closed-touched-element]' in msg else None
+
+def oracle_c12_l3(case):
+    return [x[len('X c12-bad '):] for x in case.get('extra', []) if x.startswith('X c12-bad ')][:2]
